@@ -377,6 +377,7 @@ pub struct Report {
     pub fail_swallowed: usize,
     pub fatal_failure: bool,
     pub stop_instructed: bool,
+    pub start_stopped: bool,
     pub on_stop_ran: bool,
     pub overflow: bool,
 }
@@ -606,7 +607,10 @@ pub fn verify(t: &Tables, trace: &[Rec], sent: &[Cmd], outcome: &Outcome) -> Rep
                 Phase::AfterStop
             }
             (Trigger::Top(Top::Start), Flow::Done) => Phase::Running,
-            (Trigger::Top(Top::Start), Flow::Stop) => Phase::StartStopped,
+            (Trigger::Top(Top::Start), Flow::Stop) => {
+                rep.start_stopped = true;
+                Phase::StartStopped
+            }
             (Trigger::Top(_), Flow::Fail) => {
                 // on_start / suspended program: AgentInitError::UserCodeError / AgentTaskError::UserCodeError
                 rep.fatal_failure = true;
